@@ -279,6 +279,75 @@ def run_static(ctx, tab, cases, objdir):
     ctx.validated(len(cases))
 
 
+def find_data(mod, name):
+    """data definition of object `name`: file scope `$name`, block-scope static `$.Lname.N`."""
+    for d in mod["data"]:
+        if d["name"] == name or re.fullmatch(r"\.L%s\.\d+" % re.escape(name), d["name"]):
+            return d
+    return None
+
+
+def render_list(tab, case, form):
+    spec, d = declarator(tab, case["ty"], "%s")
+    if spec.endswith("*"):
+        spec, d = spec[:-1].strip(), "*" + d
+    init = render_init(case)
+    body = "static %s%s %s = %s, %s, %s = %s;" % ("_Thread_local " if form == "list-thread" else "", spec,
+                                                  d % "x", init, d % "x_z", d % "x_2", init)
+    return body if form == "list-file" else "void f(void) { %s }" % body
+
+
+def run_lists(ctx, tab, cases, forms, objdir):
+    """Declarator lists: every object of `static T x = I, x_z, x_2 = I;` has the image of its own initializer,
+    the one without initializer is all zero (expected bytes `zimg` from the spec)."""
+    pre = prelude(tab)
+    # the model predicts nothing unusual for the initializer itself; block-scope initializers must be constant
+    # expressions, which the address of a block-scope compound literal is not
+    base = [c for c in cases if c.get("form", "plain") == "plain" and c["zimg"] and c["mst"] == "ok" and c["sok"] and not c["sfired"]
+            and not c["agg"] and not any("(char [])" in e["c"] for e in c["ex"])]
+    jobs = [(c, f) for c in base for f in forms]
+
+    def one(job):
+        case, form = job
+        return vlib.cproc(objdir, pre + render_list(tab, case, form) + "\n")
+    results = vlib.pmap(one, jobs, workers=16)
+    for (case, form), (rc, out, err) in zip(jobs, results):
+        src = render_list(tab, case, form)
+        ctx.count(form + " " + case_key(case), nontrivial=True)
+        info = {"form": form, "source": src, "case": case}
+        why = None
+        if rc != 0:
+            why = "crash:%d" % rc if rc != 1 else "reject:" + err.strip().split("\n")[-1][-100:]
+        else:
+            try:
+                mod = ilparse.parse(out)
+                for name, zero in (("x", False), ("x_z", True), ("x_2", False)):
+                    d = find_data(mod, name)
+                    if d is None:
+                        why = "no definition of %s" % name
+                        break
+                    img, rel = ilparse.data_image(d)
+                    if d["thread"] != (form == "list-thread"):
+                        why = "%s: thread storage %s" % (name, d["thread"])
+                    elif zero:
+                        if img != case["zimg"] or rel or d["align"] != tab["ty"][case["ty"]]["align"]:
+                            why = "%s (no initializer): size %d align %d bytes %s relocations %s, required %d zero bytes" % (
+                                name, len(img), d["align"], img[:16], rel, len(case["zimg"]))
+                    else:
+                        w = compare(case, len(img), d["align"], img, observed_rel(mod, rel), tab)
+                        why = w and "%s: %s" % (name, w)
+                    if why:
+                        break
+            except ilparse.ILSyntaxError as e:
+                why = "ilsyntax:" + str(e)[:80]
+        if why:
+            info["why"] = why
+            ctx.violation("static:%s:%s:%s" % (case["ty"], form, why.split(":")[0].split(" ")[0]),
+                          "objects of a declarator list differ from Init.tla: %s -- %s" % (src, why), info)
+    ctx.validated(len(jobs))
+    ctx.cov["declarator_list_cases"] = len(jobs)
+
+
 def gcc_audit(ctx, tab, cases):
     """The same objects through gcc; bytes dumped at run time, pointers resolved symbolically.  A disagreement
     between gcc and the spec is a spec defect (machinery error)."""
@@ -517,6 +586,7 @@ def run(ctx):
     gcc_audit(ctx, tab, cases)
     t0 = phase(ctx, "gcc_audit_static", t0)
     run_static(ctx, tab, cases, objdir)
+    run_lists(ctx, tab, cases, tab["listforms"], objdir)
     t0 = phase(ctx, "static_replay", t0)
     for c in cases[len(cases) // 3::max(1, len(cases) // 5)][:4]:
         ctx.sample({"source": render_decl(tab, c, "x"), "expected_bytes": c["img"], "expected_rel": sorted(expected_rel(c["rel"]))})
